@@ -10,6 +10,30 @@ BASELINE_OFF = ("cd /repo && env -u SYM_METANET_VERIF /venv/bin/python -m pytest
 
 # id -> (technique, level text, level note, design ref)
 CHECKS = {
+    "C11": (
+        "exhaustive enumeration of network programs x option sets x value vectors with negative entries x engines; "
+        "metamorphic comparison of the real step with options against the real plain step wrapped in harness clamps",
+        "Bounded exhaustive exploration on the implementation: for every valid topology/configuration within the bound "
+        "and every option set in the tier (all sets with <=2 options and all six; thorough: all 63), the real NumPy step "
+        "and the real compiled SX/MX function with the options must equal clamp_next(plain(clamp_init(x))) with the clamps "
+        "applied by the harness to exactly the named quantities, on negated/alternating-sign base vectors and all single "
+        "excursions over alphabets that contain negative values; without options negative values must pass unclamped.",
+        "Where the plain result is NaN (negative density under a non-integer power) max(0, NaN) is engine-defined and not "
+        "compared; tolerance 1e-12.",
+        "DESIGN.md section 3, C11",
+    ),
+    "C19": (
+        "exhaustive enumeration of API histories (per-element init/step, Network.step variants, adding a link after "
+        "stepping) with to_function observed in every reached state; stateless to a length, state-matching BFS beyond",
+        "Bounded exhaustive exploration of histories on real objects: all histories over 14 operations up to length 3 "
+        "(quick) / 4 (thorough) for SX and MX, plus breadth-first search to depth 5 / 7 with states merged on a model key "
+        "(initialised?, stepped with which parameters under which topology, which dependencies were re-initialised since). "
+        "In every state the model predicts RuntimeError or function; a returned function must have no free symbols and "
+        "each element's results must equal the NumPy twin of that element's most recent step.",
+        "One network family (metered ramp, VSL link, plain link, congested destination, spare link+destination); model "
+        "of staleness from the C10 dependency relation; one admissible value vector for the numeric clause.",
+        "DESIGN.md section 3, C19",
+    ),
     "C03": (
         "exhaustive enumeration of network programs x compilation variants (symbol type x compactness x extra outputs x "
         "symbolic parameters) x deviation-bounded value vectors; compiled function vs NumPy step of a twin network",
